@@ -167,9 +167,10 @@ def background(reg: Registry):
         z3.ForAll([c], F_sub(c, c), patterns=[F_sub(c, c)]),
         z3.ForAll([i], z3.And(F_ival(F_IntV(i)) == i, F_cls(F_IntV(i)) == reg.cls(int)), patterns=[F_IntV(i)]),
         z3.ForAll([b], z3.And(F_bval(F_BoolV(b)) == b, F_cls(F_BoolV(b)) == reg.cls(bool),
-                              F_ival(F_BoolV(b)) == z3.If(b, 1, 0)), patterns=[F_BoolV(b)]),
+                              F_ival(F_BoolV(b)) == z3.If(b, 1, 0), F_truth(F_BoolV(b)) == b), patterns=[F_BoolV(b)]),
         z3.ForAll([s], z3.And(F_sval(F_StrV(s)) == s, F_cls(F_StrV(s)) == reg.cls(str)), patterns=[F_StrV(s)]),
         F_cls(NoneV) == reg.cls(type(None)),
+        z3.Not(F_truth(NoneV)),
         z3.ForAll([x], z3.Implies(F_cls(x) == reg.cls(type(None)), x == NoneV), patterns=[F_cls(x)]),
         z3.ForAll([x], z3.Implies(F_cls(x) == reg.cls(bool), x == F_BoolV(F_bval(x))), patterns=[F_cls(x)]),
         z3.ForAll([x], z3.Implies(F_cls(x) == reg.cls(int), x == F_IntV(F_ival(x))), patterns=[F_cls(x)]),
